@@ -218,3 +218,34 @@ func init() {
 		mutant{Name: "select-append-in-place", Prop: "C08", File: "interp/run.go", Old: "\t\tcases := make([]reflect.SelectCase, nbClause+1)\n\t\tcopy(cases, dirs)\n", New: "\t\tcases := append(dirs[:nbClause], reflect.SelectCase{})\n", Rule: "R08.1", Key: "_select/captured:dirs"},
 	)
 }
+
+// Pure renames of the unexported anchor functions: every property's check must stay silent.
+func init() {
+	renames := []struct {
+		name  string
+		files []string
+		old   string
+		new   string
+	}{
+		{"runCfg", []string{"interp/interp.go", "interp/run.go"}, "runCfg", "execLoop"},
+		{"newFrame", []string{"interp/interp.go", "interp/run.go"}, "newFrame", "mkFrame"},
+		{"importSrc", []string{"interp/gta.go", "interp/interp.go", "interp/program.go", "interp/src.go"}, "importSrc", "loadSourcePackage"},
+		{"runid", []string{"interp/interp.go", "interp/run.go", "interp/program.go", "interp/src.go"}, "runid", "generation"},
+		{"setrunid", []string{"interp/interp.go", "interp/program.go", "interp/src.go"}, "setrunid", "attachToRun"},
+		{"stop", []string{"interp/interp.go", "interp/program.go"}, "stop", "cancelRun"},
+		{"fixStdlib", []string{"interp/use.go"}, "fixStdlib", "patchStdlib"},
+		{"resizeFrame", []string{"interp/interp.go", "interp/program.go", "interp/src.go"}, "resizeFrame", "growGlobals"},
+		{"gtaRetry", []string{"interp/gta.go", "interp/program.go", "interp/src.go"}, "gtaRetry", "gtaFixpoint"},
+		{"genGlobalVars", []string{"interp/cfg.go", "interp/program.go", "interp/src.go"}, "genGlobalVars", "orderGlobals"},
+	}
+	props := []string{"C01", "C06", "C08", "C09", "C10", "C11", "C12", "C13", "C15", "C16", "C17", "C19", "C05", "C02", "C03"}
+	for _, rn := range renames {
+		var rs [][3]string
+		for _, f := range rn.files {
+			rs = append(rs, [3]string{f, rn.old, rn.new})
+		}
+		for _, p := range props {
+			addMutants(mutant{Name: "benign-rename-" + rn.name, Prop: p, File: rn.files[0], Rename: rs, Benign: true})
+		}
+	}
+}
